@@ -317,11 +317,8 @@ fn run_t(toks: &[&str]) -> String {
         "http" | "phttp" => m_http::apply(f, &ch), "tls" | "ptls" => m_tls::apply(f, &cl), _ => m_tcp::apply(f, &ct) }).collect();
     let adm: Vec<String> = (0..frames.len()).filter(|&k| ep[k].is_some() && app[k]).map(|k| k.to_string()).collect();
     let mut out = format!("adm={}", adm.join(","));
-    // implementation-level oracle; traces holding a frame of the loopback class (superset: signature 1e 00) are
-    // judged by the MODEL/SPEC columns only
-    // (C15_ORACLE_ALL=1 runs the oracle on those too: used to demonstrate the open finding on the real analyzers)
-    let all = std::env::var("C15_ORACLE_ALL").is_ok();
-    if (!all && frames.iter().any(|f| f.len() >= 24 && f[0] == 0x1e && f[1] == 0)) || frames.iter().any(|f| f.is_empty()) { return out; }
+    // implementation-level oracle (every trace: no known class is left after fix 3908c86)
+    if frames.iter().any(|f| f.is_empty()) { return out; }
     let sub = |should: &dyn Fn(&Ep) -> bool| -> Vec<Vec<u8>> {
         (0..frames.len()).filter(|&k| ep[k].as_ref().map(|e| should(e)).unwrap_or(false)).map(|k| frames[k].clone()).collect() };
     let (with, plain) = match which {
